@@ -85,7 +85,7 @@ def make_phy_settings(core, module, clk_freq):
 
 
 class CoreBench:
-    def __init__(self, core, clocks=None, track_multireg=False):
+    def __init__(self, core, clocks=None, track_multireg=False, attach=None):
         self.core_cfg = core
         period = core["clk_period_ps"]
         clk_freq = 1e12 / period
@@ -106,6 +106,9 @@ class CoreBench:
                                          clock_domain=p.get("cd", "sys"), reverse=p.get("reverse", False))
             self.ports.append(port)
         self.xports = dut.crossbar.masters
+        if attach is not None:
+            # a frontend (bridge, DMA, FIFO, BIST, ...) built on the core's ports becomes part of the same design
+            self.attached = attach(dut, self.ports)
         clks = {"sys": {"period": period, "phase": 0}}
         if clocks:
             clks.update(clocks)
@@ -139,6 +142,75 @@ class CoreBench:
 
 
 from .props.c07 import View  # noqa: E402
+
+class CorePortView:
+    """What the frontend checks need from "the memory behind a native port" when that memory is the real core + DramRef:
+    the interface of NativeMemSlave that the oracles use (ncmd, nwdone, log, mem, read_word, idle)."""
+
+    def __init__(self, sim, tb, dram, port, name="core", on_cmd=None):
+        self.sim, self.tb, self.dram = sim, tb, dram
+        ix = sim.index
+        self.i_cv, self.i_cr = ix(port.cmd.valid), ix(port.cmd.ready)
+        self.i_cwe, self.i_ca = ix(port.cmd.we), ix(port.cmd.addr)
+        self.i_wr, self.i_wd, self.i_wwe = ix(port.wdata.ready), ix(port.wdata.data), ix(port.wdata.we)
+        self.i_rv, self.i_rd = ix(port.rdata.valid), ix(port.rdata.data)
+        self.nbytes = port.data_width // 8
+        self.name = name
+        self.on_cmd = on_cmd
+        self.ncmd = self.nwdone = 0
+        self.wq, self.rq = [], []
+        self.log = []
+        self.amask = (1 << tb.amap.aw) - 1
+        sim.add_agent("sys", self)
+
+    def __call__(self, sim):
+        S = sim.S
+        if S[self.i_cv] and S[self.i_cr]:
+            we, a = S[self.i_cwe], S[self.i_ca] & self.amask
+            self.ncmd += 1
+            (self.wq if we else self.rq).append(a)
+            if self.on_cmd:
+                self.on_cmd(we, a)
+            sim.ev(self.name, "cmd", we, a)
+        if S[self.i_wr] and self.wq:
+            a = self.wq.pop(0)
+            self.nwdone += 1
+            self.log.append(("w", a, S[self.i_wd], S[self.i_wwe]))
+        if S[self.i_rv] and self.rq:
+            a = self.rq.pop(0)
+            self.log.append(("r", a, S[self.i_rd], 0))
+
+    def idle(self):
+        return not self.wq and not self.rq and not self.dram.wq and not self.dram.rq
+
+    def read_word(self, a):
+        return self.dram.read_key(self.tb.amap.fwd_c(a & self.amask))
+
+    @property
+    def mem(self):
+        return {self.tb.amap.inv_c(*k): v for k, v in self.dram.store.items() if k[2] >= 0}
+
+
+def core_host(scn_core, viol_factory, attach, clocks=None):
+    """Build the real core with a frontend attached to its ports and DramRef as the DRAM.
+    Returns (tb, sim, viol, dram)."""
+    tb = CoreBench(scn_core, clocks=clocks, attach=attach)
+    sim = tb.sim
+    viol = viol_factory(sim)
+    ds = Datasheet(tb.module)
+    dram = DramRef(sim, tb.dut.phy.dfi, tb.dram_cfg(), viol, amap=tb.amap, datasheet=ds)
+    # requests as accepted at the crossbar, linked to the column commands on the DFI bus (C02/C06 oracles stay armed)
+    amap = tb.amap
+
+    def xmon(i, xp):
+        def on(x):
+            rank, bank, row, col = amap.fwd(x["addr"])
+            dram.push_request(rank, bank, x["we"], row, col, "xbar master %d addr 0x%x" % (i, x["addr"]))
+        return StreamMonitor(sim, xp.cmd, ["we", "addr"], on)
+    for i, xp in enumerate(tb.xports):
+        sim.add_agent("sys", xmon(i, xp))
+    return tb, sim, viol, dram
+
 
 PROP_OF = {"c01": "C01", "c02": "C02", "c03": "C03", "c04": "C04", "c05": "C05", "c06": "C06"}
 
